@@ -1011,3 +1011,45 @@ func checkRenderKeepsErrorPrefix(w *core.World, r *core.Report, rule string) {
 	r.Check(bad == "" && n > 0, rule, "render path: the error prefix is not consumed by rendering", badPos, fmt.Sprintf("%d functions of package render reachable from Page.Render, none stores Page.err", n),
 		"a render clears the error it shows: with an output size the measuring pass consumes it and the catch page is delivered without the invalid-input message: "+bad)
 }
+
+// checkPrimitiveDecodersJudgeFramingOnly (C14 R15): the encoders (vm.NewLine, the assembler's
+// writers, the batch menu processor) write any string of 1..255 bytes as a symbol and any 32-bit
+// number as an integer operand. "Decoding yields what was encoded" therefore needs the primitive
+// decoders to accept every content: they may refuse an instruction for its framing (lengths), never
+// for what the bytes say. Decided structurally: a primitive decoder of package vm calls nothing but
+// builtins, the error constructors, encoding/binary and logging - no predicate over the operand
+// bytes (a UTF-8 or pattern test, a table lookup) can stand between well-framed bytes and their
+// decoded value.
+func checkPrimitiveDecodersJudgeFramingOnly(w *core.World, r *core.Report, rule string) {
+	n := 0
+	for _, kind := range []string{"S", "I"} {
+		d := primitiveDecoder(w, kind)
+		if d == nil {
+			r.Undecided(rule, "primitive decoder ("+kind+")", token.NoPos, "role not resolved")
+			continue
+		}
+		n++
+		r.Touch(core.QName(d))
+		bad := ""
+		var badPos token.Pos
+		for _, c := range core.Calls(d) {
+			if _, ok := c.Common().Value.(*ssa.Builtin); ok {
+				continue
+			}
+			name := core.CallName(c)
+			switch {
+			case strings.HasPrefix(name, "fmt."), strings.HasPrefix(name, "errors."), strings.HasPrefix(name, "encoding/binary."),
+				strings.HasPrefix(name, "logging."), strings.Contains(name, "logging.Logger"), strings.HasPrefix(name, "dynamic:logging"):
+				continue
+			}
+			if g := core.StaticCallee(c); g != nil && core.PkgOf(g) == "vm" && primitiveKind(g) != "" {
+				continue
+			}
+			bad = fmt.Sprintf("calls %s at %s", name, w.Pos(c.Pos()))
+			badPos = c.Pos()
+		}
+		r.Check(bad == "", rule, "primitive decoder ("+kind+"): refuses for framing only", badPos, "calls only builtins, error constructors, encoding/binary and logging",
+			"the decoder judges the content of an operand: bytes the encoder writes (a label that is not well-formed UTF-8, a binary selector, a symbol cut at the 255-byte limit) are refused by every Parse* function, the VM and the disassembler - encoder and decoder no longer agree on the operand domain: "+bad)
+	}
+	r.Floor(rule, "primitive decoders", n, 2)
+}
